@@ -118,9 +118,11 @@ Definition int_from_go (k : scalar_kind) (v : goval) : outcome (option pval) :=
 (* ------------------------------------------------------------ floats *)
 Definition f64_mag (bits : N) : N := bits mod 9223372036854775808.            (* clear the sign bit *)
 Definition f64_is_nan (bits : N) : bool := 9218868437227405312 <? f64_mag bits.   (* > 0x7FF0000000000000 *)
-(* val > math.MaxFloat32 || val < -math.MaxFloat32 (false for NaN) *)
-Definition f32_out_of_range (bits : N) : bool :=
-  negb (f64_is_nan bits) && (5183643170566569984 <? f64_mag bits).             (* > 0x47EFFFFFE0000000 *)
+Definition f64_is_inf (bits : N) : bool := f64_mag bits =? 9218868437227405312.        (* 0x7FF0000000000000 *)
+Definition f32_is_inf (bits : N) : bool := bits mod 2147483648 =? 2139095040.         (* 0x7F800000 *)
+(* f32 := float32(val); out of range: math.IsInf(f32) && !math.IsInf(val), i.e. a finite
+   value that rounds to an infinity.  [r] = (Float64bits val, Float32bits (float32 val)) *)
+Definition f32_out_of_range (r : N * N) : bool := f32_is_inf (snd r) && negb (f64_is_inf (fst r)).
 
 Definition float_from_go (orc : oracles) (k : scalar_kind) (v : goval) : outcome (option pval) :=
   let parsed :=
@@ -132,7 +134,7 @@ Definition float_from_go (orc : oracles) (k : scalar_kind) (v : goval) : outcome
   obind parsed (fun r =>
     match k with
     | KFloat64 => Ok (Some (VFloat (fst r)))
-    | KFloat32 => if f32_out_of_range (fst r) then Err "out of range for float32" else Ok (Some (VFloat (snd r)))
+    | KFloat32 => if f32_out_of_range r then Err "out of range for float32" else Ok (Some (VFloat (snd r)))
     | _ => Err "unsupported float format"
     end).
 
